@@ -353,4 +353,4 @@ def _worker(ctx, n):
 
 def run(ctx):
     quick = ctx.tier == "quick"
-    ctx.parallel(_worker, [40] * 16 if quick else [640] * 16)
+    ctx.parallel(_worker, [40] * 16 if quick else [2500] * 16)
